@@ -530,6 +530,10 @@ impl<'a, R: AsyncRead + Unpin, W: AsyncWrite + Unpin> Request<'a, R, W> {
                 return Poll::Ready(Ok(status.stream));
             }
 
+            // Replies generated by the parse above must not wait for more input:
+            // the client may be waiting for them before it sends anything else
+            ready!(Pin::new(&mut *this).poll_output(cx))?;
+
             // Both stream and protocol data buffers are empty here
             this.parser.compress();
             let buf = this.parser.input_buffer();
